@@ -12,7 +12,15 @@ use serde_json::{json, Map, Value};
 use std::collections::{BTreeMap, BTreeSet};
 use std::time::{Duration, Instant};
 
+pub struct MiriCfg {
+    pub seeds: usize,
+    pub calls: usize,
+    pub threads: usize,
+    pub timeout_s: u64,
+}
+
 pub struct Tier {
+    pub miri: MiriCfg,
     pub name: &'static str,
     pub sizes: PoolSizes,
     pub recheck_every: usize,
@@ -28,6 +36,7 @@ pub struct Tier {
 pub fn tier(name: &str) -> Tier {
     if name == "thorough" {
         Tier {
+            miri: MiriCfg { seeds: 48, calls: 80, threads: 3, timeout_s: 1500 },
             name: "thorough",
             sizes: PoolSizes { gen_per_ev: 4000, cross_texts: 1200, malformed_per_ev: 600, max_corpus: 2000 },
             recheck_every: 1,
@@ -41,6 +50,7 @@ pub fn tier(name: &str) -> Tier {
         }
     } else {
         Tier {
+            miri: MiriCfg { seeds: 4, calls: 30, threads: 3, timeout_s: 150 },
             name: "quick",
             sizes: PoolSizes { gen_per_ev: 600, cross_texts: 110, malformed_per_ev: 60, max_corpus: 300 },
             recheck_every: 7,
@@ -625,7 +635,6 @@ pub fn check(o: &CheckOpts) -> i32 {
         crashed += b.crashed;
     }
     let (filled, cells) = pairs_fill(&pairs);
-    let wall = t0.elapsed().as_secs_f64();
 
     // samples
     let mut samples: Vec<Value> = Vec::new();
@@ -642,6 +651,44 @@ pub fn check(o: &CheckOpts) -> i32 {
     if samples.is_empty() {
         samples.push(json!({"note": "no traced run completed", "pool_example": pool.entries.first().map(|e| e.call.to_json())}));
     }
+
+    // ---- supplementary Miri pass (last: it uses helper threads, and nothing forks after this point)
+    let mo = if std::env::var("VERIF_NO_MIRI").is_ok() {
+        None
+    } else {
+        let text = crate::miri::miri_calls(&pool, o.seed, t.miri.calls);
+        let m = crate::miri::run_miri(&o.verif, &text, t.miri.threads, &format!("-Zmiri-many-seeds=0..{}", t.miri.seeds), Duration::from_secs(t.miri.timeout_s));
+        if m.ran {
+            println!("miri pass: {} seeds x {} threads x {} calls, data race reported: {}, other error: {} ({:.1}s)", m.seeds, m.threads, m.calls, m.data_race, m.other_error, m.wall_s);
+        } else {
+            println!("miri pass: not run ({})", m.reason);
+        }
+        if m.other_error {
+            println!("NOTE: Miri reported an error that is not a data race in string_calculator; it is not a C16 verdict:\n{}", m.excerpt);
+        }
+        if m.data_race {
+            raw_violations += 1;
+            let seed0 = m.failing_seeds.first().copied().unwrap_or(0);
+            let dir = format!("{}/replays", o.verif);
+            let _ = std::fs::create_dir_all(&dir);
+            let path = format!("{}/C16-{}-miri-{}.json", dir, o.seed, seed0);
+            let v = json!({
+                "property": "C16", "seed": o.seed, "tier": t.name,
+                "miri": {"miri_seed": seed0, "failing_seeds": m.failing_seeds, "threads": m.threads, "calls_text": m.calls_text,
+                         "flags": "-Zmiri-disable-isolation -Zmiri-preemption-rate=0.1 -Zmiri-seed=<miri_seed>"},
+                "violation": {"kind": "data_race", "detail": m.excerpt},
+                "format": "sc_sim replay v1 (miri): every thread evaluates the calls of calls_text (lines ev<TAB>placeholder<TAB>expr), thread t starting at offset t*n/threads; re-run under Miri with the given seed",
+            });
+            let _ = std::fs::write(&path, serde_json::to_string_pretty(&v).unwrap_or_default());
+            let class = ("any".to_string(), "data_race".to_string());
+            let case = Case { threads: vec![], churn: vec![], start: 0, switches: vec![] };
+            let kn = match_known(&known, &class, &case);
+            findings.push(Finding { file: path, class, case, known: kn, confidence: format!("{} of {} Miri seeds fail", m.failing_seeds.len(), m.seeds) });
+        }
+        Some(m)
+    };
+
+    let wall = t0.elapsed().as_secs_f64();
 
     // ---- verdict
     let mut new_violations = 0;
@@ -708,6 +755,7 @@ pub fn check(o: &CheckOpts) -> i32 {
             "determinism_selfcheck": {"seeds": det_n, "comparisons": det_compared, "mismatches": det_mismatch, "worker_counts": [w, 4.min(w), 1]},
             "uncontrolled_sources": audit,
             "raw_violating_runs": raw_violations,
+            "miri_pass": mo.as_ref().map(|m| m.to_json()).unwrap_or(json!({"ran": false, "reason": "disabled by VERIF_NO_MIRI"})),
             "replay_files": findings.iter().map(|f| json!({"file": f.file, "evaluator": f.class.0, "kind": f.class.1, "known": f.known, "replay_confidence": f.confidence})).collect::<Vec<_>>(),
             "components": {
                 "real": ["string_calculator (all five eval_* stacks and utils, built from /repo's working tree with feature verif_hooks)", "rust_decimal", "num-complex", "std threads / TLS / statics of the real process"],
@@ -762,6 +810,22 @@ pub fn replay(path: &str, workers: usize) -> i32 {
             return 2;
         }
     };
+    if let Some(m) = v.get("miri") {
+        let seed = m.get("miri_seed").and_then(|x| x.as_u64()).unwrap_or(0);
+        let threads = m.get("threads").and_then(|x| x.as_u64()).unwrap_or(3) as usize;
+        let text = m.get("calls_text").and_then(|x| x.as_str()).unwrap_or("");
+        let verif = std::path::Path::new(path).parent().and_then(|p| p.parent()).map(|p| p.display().to_string()).unwrap_or_else(|| "/verif".into());
+        let verif = if std::path::Path::new(&format!("{}/miri_scn/Cargo.toml", verif)).exists() { verif } else { "/verif".to_string() };
+        let mo = crate::miri::run_miri(&verif, text, threads, &format!("-Zmiri-seed={}", seed), Duration::from_secs(600));
+        println!("miri replay with seed {}: ran={} data_race={} {}", seed, mo.ran, mo.data_race, mo.reason);
+        if mo.data_race {
+            println!("{}", mo.excerpt);
+            println!("VIOLATION property=C16 replay={}", path);
+            return 1;
+        }
+        println!("not reproduced");
+        return 0;
+    }
     let case = match Case::from_json(&v) {
         Some(c) => c,
         None => {
